@@ -174,3 +174,63 @@ def call_graph(F, roots, follow_unresolved_local_traits=True, include=lambda f: 
                     if g and include(g):
                         work.append(g)
     return seen
+
+
+def api_roots(F, self_prefixes=(), traits_for=(), free_prefixes=()):
+    """Public inherent methods of types whose path starts with one of self_prefixes, all methods of trait
+    impls (any trait) for those types listed in traits_for, and free functions whose def path starts with
+    one of free_prefixes."""
+    roots = []
+    for imp in F.impls:
+        st = imp["self_ty"]
+        if not any(st == p or st.startswith(p + "<") for p in self_prefixes):
+            continue
+        if "trait" in imp and imp["trait"] not in traits_for:
+            continue
+        for m in imp["methods"]:
+            if "trait" not in imp and m.get("vis") != "Public":
+                continue
+            f = F.fns.get(m["key"]) or F.identity(m["def"])
+            if f:
+                roots.append(f)
+    for f in F.identity_fns():
+        if f["kind"] == "Fn" and any(f["def"].startswith(p) for p in free_prefixes) and f.get("vis") == "Public":
+            roots.append(f)
+    return roots
+
+
+def writer_graph(F):
+    roots = api_roots(F, ("writer::ShapeWriter", "writer::Writer"), traits_for=("std::ops::Drop",))
+    for imp in F.trait_impls("record::WritableShape"):
+        for m in imp["methods"]:
+            f = F.fns.get(m["key"])
+            if f:
+                roots.append(f)
+    g = call_graph(F, roots, include=lambda f: f.get("krate") == F.crate and not factsmod.is_test_fn(f))
+    return roots, g
+
+
+def reader_graph(F):
+    roots = api_roots(F, ("reader::ShapeReader", "reader::Reader", "reader::ShapeIterator", "reader::ShapeRecordIterator"),
+                      traits_for=("std::iter::Iterator",), free_prefixes=("reader::read",))
+    for tr in ("record::ReadableShape", "record::ConcreteReadableShape"):
+        for imp in F.trait_impls(tr):
+            for m in imp["methods"]:
+                f = F.fns.get(m["key"])
+                if f:
+                    roots.append(f)
+    g = call_graph(F, roots, include=lambda f: f.get("krate") == F.crate and not factsmod.is_test_fn(f))
+    return roots, g
+
+
+def generic_only(F, fns):
+    """one record per def: its identity instance (modular analyses do not need the monomorphic copies)"""
+    out = {}
+    for f in fns:
+        d = f["def"]
+        if d in out:
+            continue
+        g = F.identity(d)
+        if g is not None:
+            out[d] = g
+    return list(out.values())
